@@ -77,7 +77,7 @@ func init() {
 				c01RootTip(w)
 			}
 			if w.Batch == 2 {
-				c01TruncationRace(w)
+				c01TruncationRace(w, []string{"C01"})
 			}
 			runRandomScenarios(w, []string{"C01"}, w.Pick(12, 60), func(p *ledger.Profile) { p.POverdraft = 0.35; p.PForge = 0.2 }, nil)
 			c01Truncation(w)
@@ -96,6 +96,7 @@ func init() {
 			runRandomScenarios(w, []string{"C03"}, w.Pick(10, 50), func(p *ledger.Profile) { p.PReplay = 0.3; p.PConcurrent = 0.12 }, c03SyncReplay, func(d *ledger.Driver) { d.W.OldEvery = 4 })
 			c03Concurrent(w)
 			concurrentDupChild(w, []string{"C03"})
+			orphanReplayRace(w, []string{"C03"})
 			c03Truncation(w)
 			if w.Batch == 3 {
 				// a truncation over a wallet whose summed inflow does not fit 64 bits must still leave every vertex in
